@@ -1,3 +1,180 @@
 package main
 
-func schedRewrites() []rewrite { return nil }
+import (
+	"bytes"
+	"fmt"
+	"go/ast"
+	"go/parser"
+	"go/printer"
+	"go/token"
+	"strconv"
+)
+
+const mcrtPath = "github.com/relab/hotstuff/zverif/mcrt"
+
+// schedFiles: files explored under the controlled scheduler, with the minimum number of
+// select / go statements the checks rely on being instrumented.
+var schedFiles = []struct {
+	file           string
+	minSel, minGo  int
+}{
+	{"internal/proto/clientpb/cmdcache.go", 1, 0},
+	{"core/eventloop/queue.go", 1, 0},
+	{"core/eventloop/eventloop.go", 1, 0},
+	{"core/eventloop/gpool.go", 0, 0},
+	{"protocol/votingmachine/votingmachine.go", 0, 1},
+	{"protocol/viewstates.go", 0, 0},
+	{"security/blockchain/blockchain.go", 0, 0},
+	{"security/cert/cache.go", 0, 0},
+}
+
+func schedRewrites() []rewrite {
+	var out []rewrite
+	for _, sf := range schedFiles {
+		sf := sf
+		out = append(out, rewrite{file: sf.file, apply: func(path string, src []byte) ([]byte, error) {
+			res, nsel, ngo, err := schedRewrite(path, src)
+			if err != nil {
+				return nil, err
+			}
+			if nsel < sf.minSel || ngo < sf.minGo {
+				return nil, fmt.Errorf("expected at least %d select and %d go statements to instrument, found %d and %d", sf.minSel, sf.minGo, nsel, ngo)
+			}
+			return res, nil
+		}})
+	}
+	return out
+}
+
+func sel(x, name string) ast.Expr {
+	return &ast.SelectorExpr{X: ast.NewIdent(x), Sel: ast.NewIdent(name)}
+}
+
+func schedRewrite(path string, src []byte) ([]byte, int, int, error) {
+	fset := token.NewFileSet()
+	f, err := parser.ParseFile(fset, path, src, 0) // comments dropped on purpose (they would be misplaced)
+	if err != nil {
+		return nil, 0, 0, err
+	}
+	// 1. import "sync" -> the shim under the same name
+	found := false
+	for _, imp := range f.Imports {
+		if p, _ := strconv.Unquote(imp.Path.Value); p == "sync" {
+			imp.Path.Value = strconv.Quote(mcrtPath)
+			imp.Name = ast.NewIdent("sync")
+			found = true
+		}
+	}
+	if !found {
+		return nil, 0, 0, fmt.Errorf("file does not import sync")
+	}
+	nsel, ngo := 0, 0
+	var rewriteStmts func(list []ast.Stmt) []ast.Stmt
+	var rewriteStmt func(s ast.Stmt) ast.Stmt
+	rewriteStmt = func(s ast.Stmt) ast.Stmt {
+		switch st := s.(type) {
+		case *ast.GoStmt:
+			ngo++
+			body := &ast.BlockStmt{List: []ast.Stmt{&ast.ExprStmt{X: st.Call}}}
+			fn := &ast.FuncLit{Type: &ast.FuncType{Params: &ast.FieldList{}}, Body: body}
+			// nested function literals inside the call are rewritten as well
+			ast.Inspect(st.Call, func(n ast.Node) bool {
+				if fl, ok := n.(*ast.FuncLit); ok {
+					fl.Body.List = rewriteStmts(fl.Body.List)
+				}
+				return true
+			})
+			return &ast.ExprStmt{X: &ast.CallExpr{Fun: sel("sync", "Go"), Args: []ast.Expr{fn}}}
+		case *ast.SelectStmt:
+			var cases []ast.Expr
+			var clauses []ast.Stmt
+			ok := true
+			for i, c := range st.Body.List {
+				cc := c.(*ast.CommClause)
+				switch comm := cc.Comm.(type) {
+				case nil:
+					cases = append(cases, &ast.CallExpr{Fun: sel("sync", "D")})
+				case *ast.ExprStmt:
+					u, isRecv := comm.X.(*ast.UnaryExpr)
+					if !isRecv || u.Op != token.ARROW {
+						ok = false
+					} else {
+						cases = append(cases, &ast.CallExpr{Fun: sel("sync", "R"), Args: []ast.Expr{u.X}})
+					}
+				case *ast.SendStmt:
+					cases = append(cases, &ast.CallExpr{Fun: sel("sync", "S"), Args: []ast.Expr{comm.Chan, comm.Value}})
+				default:
+					ok = false // receive with assignment: left alone
+				}
+				clauses = append(clauses, &ast.CaseClause{List: []ast.Expr{&ast.BasicLit{Kind: token.INT, Value: strconv.Itoa(i)}}, Body: rewriteStmts(cc.Body)})
+			}
+			if !ok {
+				return s
+			}
+			nsel++
+			return &ast.SwitchStmt{Tag: &ast.CallExpr{Fun: sel("sync", "Select"), Args: cases}, Body: &ast.BlockStmt{List: clauses}}
+		case *ast.BlockStmt:
+			st.List = rewriteStmts(st.List)
+		case *ast.IfStmt:
+			st.Body.List = rewriteStmts(st.Body.List)
+			if st.Else != nil {
+				st.Else = rewriteStmt(st.Else)
+			}
+		case *ast.ForStmt:
+			st.Body.List = rewriteStmts(st.Body.List)
+		case *ast.RangeStmt:
+			st.Body.List = rewriteStmts(st.Body.List)
+		case *ast.LabeledStmt:
+			st.Stmt = rewriteStmt(st.Stmt)
+		case *ast.SwitchStmt:
+			for _, c := range st.Body.List {
+				cc := c.(*ast.CaseClause)
+				cc.Body = rewriteStmts(cc.Body)
+			}
+		case *ast.TypeSwitchStmt:
+			for _, c := range st.Body.List {
+				cc := c.(*ast.CaseClause)
+				cc.Body = rewriteStmts(cc.Body)
+			}
+		case *ast.DeferStmt:
+			if fl, ok := st.Call.Fun.(*ast.FuncLit); ok {
+				fl.Body.List = rewriteStmts(fl.Body.List)
+			}
+		case *ast.ExprStmt, *ast.AssignStmt, *ast.ReturnStmt:
+			ast.Inspect(s, func(n ast.Node) bool {
+				if fl, ok := n.(*ast.FuncLit); ok {
+					fl.Body.List = rewriteStmts(fl.Body.List)
+					return false
+				}
+				return true
+			})
+		}
+		return s
+	}
+	rewriteStmts = func(list []ast.Stmt) []ast.Stmt {
+		for i, s := range list {
+			list[i] = rewriteStmt(s)
+		}
+		return list
+	}
+	for _, d := range f.Decls {
+		if fd, ok := d.(*ast.FuncDecl); ok && fd.Body != nil {
+			fd.Body.List = rewriteStmts(fd.Body.List)
+		}
+		// package-level function literals (var x = func() {...})
+		if gd, ok := d.(*ast.GenDecl); ok {
+			ast.Inspect(gd, func(n ast.Node) bool {
+				if fl, ok := n.(*ast.FuncLit); ok {
+					fl.Body.List = rewriteStmts(fl.Body.List)
+					return false
+				}
+				return true
+			})
+		}
+	}
+	var buf bytes.Buffer
+	if err := printer.Fprint(&buf, token.NewFileSet(), f); err != nil {
+		return nil, 0, 0, err
+	}
+	return buf.Bytes(), nsel, ngo, nil
+}
